@@ -101,6 +101,45 @@ CLAIMED = {
         "note": "Trusted: the reference scene-graph model (~120 lines); object message bodies are built with the repo's own "
                 "serializer (as its tests do). Avatars never generated as children; child order not judged.",
     },
+    "C15": {
+        "text": "Both OS processes of the HTTP side (real SLMITMAddon hooks + callback pump, real MITMProxyEventManager.run) "
+                "run in one virtual loop joined by pickling queues with random latency. Flows over the whole URL space "
+                "(caps, unknown, Seed, EventQueueGet, uploader, login, FirestormBridge, asset/wrapper, injected, browser) "
+                "with valid/empty/malformed bodies and any status meet scripted addons, http_message_handler subscribers "
+                "and a logger that ignore, annotate, rewrite, inject, take-and-resume-later, take-then-raise, never "
+                "resume, double-resume or raise. Oracle over the recorded queue history: exactly one callback per event "
+                "(from the pump call that handled it unless taken, else exactly when the addon resumes, never if it never "
+                "does), exactly one mitm-side resume per callback, prompt hand-back, flows complete, routing metadata / "
+                "flags / rewritten URL / injected response intact across both crossings.",
+        "design_ref": "DESIGN.md §4 C15",
+        "note": "Trusted: the stub of mitmproxy's protocol core (hook order only). What an addon injects/rewrites on wrapper-cap "
+                "or repeated EventQueueGet flows is not judged (the event manager itself re-points those after the hooks).",
+    },
+    "C16": {
+        "text": "Seed requests/responses (repeated grants, overlapping names, same and prefix-related URLs, shared asset caps) "
+                "through the real Seed branches, addon actors calling register_proxy_cap (1-3 times) and "
+                "register_cap(TEMPORARY), uploader responses minting temporary caps through the real path, lookups by "
+                "request (attribution read from the cap metadata that crosses the process boundary) and by name, across "
+                "1-2 sessions x 1-3 regions with queue latency. A reference grant model is replayed over the main "
+                "process's own order of work; every lookup, Seed upstream body, Seed viewer response (wrapper URLs, "
+                "proxy-only URLs), by-name read, temporary consumption and proxy-cap idempotence is checked against it.",
+        "design_ref": "DESIGN.md §4 C16",
+        "note": "Trusted: the reference grant model. A URL extending several granted URLs may resolve to any of them; plain "
+                "asset caps resolve to name+URL only.",
+    },
+    "C17": {
+        "text": "Per-region origin with a numbered event stream (templated incl. EnableSimulator / TeleportFinish / "
+                "CrossedRegion, EstablishAgentCommunication, untemplated), fresh ids, LLSD undef and 502/499/500 answers, "
+                "never re-sending on a stale ack; viewer poller that re-polls with the stale ack after each lost response; "
+                "addons swallowing subsets (or all) of a response or raising; operator injections (inject_event / "
+                "inject_message) and region teardown at seeded instants; queue latency. A model replayed over the main "
+                "process's order of work predicts the exact body of every poll response (filtering, injection merge, "
+                "undef-on-empty, replay from cache without contacting the origin); the viewer-side concatenation and "
+                "the session's region list (one entry per announced address) are checked.",
+        "design_ref": "DESIGN.md §4 C17",
+        "note": "Trusted: the reference EQ model. Viewer only repeats an ack after a lost response; malformed polls are "
+                "C15's alphabet; injections pending at teardown may vanish.",
+    },
 }
 
 NOT_APPLICABLE = {
